@@ -2,7 +2,7 @@
 # tools/run_mutant.sh <seeded dir containing patch.diff> <Cxx> [<Cxx> ...]
 # Applies the seeded change to /repo, runs the given checks (quick tier), and undoes the change straight afterwards.
 set -u
-D="$1"; shift
+D="$(cd "$1" && pwd)"; shift
 cd /verif
 if [ -n "$(git -C /repo status --porcelain --untracked-files=no)" ]; then echo "run_mutant: /repo has uncommitted changes, refusing"; exit 2; fi
 git -C /repo apply "$D/patch.diff" || { echo "run_mutant: patch does not apply"; exit 2; }
